@@ -106,6 +106,18 @@ pub fn generics(e: &EnumSpec, t_bound: &str, t_inst: &str) -> Generics {
             decl.push(format!("T: {}{}", t_bound, d));
         }
         inst.push(t_inst.to_string());
+        if e.type_param2 {
+            let d2 = if dflt { " = u8" } else { "" };
+            if e.where_clause || t_bound.is_empty() {
+                decl.push(format!("U{}", d2));
+                if !t_bound.is_empty() {
+                    wc.push_str(&format!(", U: {}", t_bound));
+                }
+            } else {
+                decl.push(format!("U: {}{}", t_bound, d2));
+            }
+            inst.push("u8".to_string());
+        }
     }
     if e.const_param {
         decl.push(if dflt { "const N: usize = 3".to_string() } else { "const N: usize".to_string() });
